@@ -44,7 +44,15 @@ LexLines ==
     {Line(sg, FALSE, "poly", <<T("pix", 12500), T("pix", 3000), T("pix", 20000), T("pix", 3500), T("pix", 14250), T("pix", 9000)>>, NoProps) : sg \in {"", "-"}},
     {Line("", FALSE, "line", <<T("pix", 12500), T("pix", 3000), T("pix", 20000), T("pix", 9500)>>, NoProps)},
     {Line(sg, FALSE, "circle", <<T("pix", 12500), T("pix", 3000), T("pix", 4250)>>, NoProps) : sg \in {"", "-"}},
-    {Line("", FALSE, "rotbox", <<T("pix", 12500), T("pix", 3000), T("pix", 6000), T("pix", 2000), T("deg", 30000)>>, NoProps)} }
+    {Line("", FALSE, "rotbox", <<T("pix", 12500), T("pix", 3000), T("pix", 6000), T("pix", 2000), T("deg", 30000)>>, NoProps)},
+    (* a rotation angle is a signed number in any angular unit (the same helper parses lengths, which are not signed) *)
+    {Line("", FALSE, k, <<T("deg", 150250), T("deg", -20500), T("arcsec", Ln("arcsec", 3)), T("arcsec", Ln("arcsec", 1)), a>>, [coord |-> "J2000"]) :
+        k \in {"ellipse", "rotbox"}, a \in {T("deg", -30000), T("deg", 330000), T("deg", 0), T("rad", -500000), T("arcmin", -90000)}},
+    {Line("", FALSE, "rotbox", <<T("pix", 12500), T("pix", 3000), T("pix", 6000), T("pix", 2000), T("deg", -30000)>>, NoProps)},
+    (* a '#' inside a value is part of the value (only a line that starts with '#' is a comment); a value may be 0 *)
+    {Line("", FALSE, "circle", <<T("deg", 150250), T("deg", -20500), T("arcsec", 54000)>>, [coord |-> "J2000", label |-> "source #3", color |-> "#ff0000", linewidth |-> "0"]),
+     Line("", FALSE, "text", <<T("deg", 150250), T("deg", -20500)>>, [coord |-> "J2000", text |-> "No. #1"]),
+     Line("-", TRUE, "symbol", <<T("deg", 150250), T("deg", -20500)>>, [coord |-> "ICRS", color |-> "#00ff00", symsize |-> "0"])} }
 StateLines == { Global([coord |-> "J2000"]), Global([coord |-> "GALACTIC", color |-> "green"]), Global([color |-> "red", linewidth |-> "2"]),
                 [k |-> "comment"],
                 Line("", FALSE, "circle", <<T("deg", 150250), T("deg", -20500), T("arcsec", 54000)>>, NoProps),
@@ -78,7 +86,12 @@ Pool == {
   U("line", "image", Pix \o <<V("mpix", 20000), V("mpix", 9500)>>, <<>>, NoAng, TRUE, "reg", NoProps),
   U("point", "image", Pix, <<>>, NoAng, TRUE, "reg", NoProps),
   U("text", "image", Pix, <<>>, NoAng, FALSE, "reg", [text |-> "pixel text"]),
-  U("circle", "fk5", Sky, <<V("mas", 3600000)>>, NoAng, FALSE, "ann", [label |-> "excluded annotation"]) }
+  U("circle", "fk5", Sky, <<V("mas", 3600000)>>, NoAng, FALSE, "ann", [label |-> "excluded annotation"]),
+  (* negative angles; values that are 0 / False (given as numbers and booleans, not text); '#' inside values *)
+  U("rectangle", "fk5", Sky, <<V("mas", 14400000), V("mas", 7200000)>>, V("mas", -108000000), TRUE, "reg", [label |-> "src #3"]),
+  U("ellipse", "image", Pix, <<V("mpix", 6000), V("mpix", 2000)>>, V("mas", -36000000), TRUE, "reg", [linewidth |-> "0", color |-> "#ff0000"]),
+  U("circle", "icrs", Sky, <<V("mas", 3600000)>>, NoAng, TRUE, "reg", [usetex |-> "False", symthick |-> "0"]),
+  U("text", "fk5", Sky, <<>>, NoAng, TRUE, "reg", [text |-> "No. #1", linewidth |-> "0"]) }
 RadUnits(frame) == IF frame = "image" THEN {"pix", "deg"} ELSE {"deg", "arcmin", "arcsec"}
 
 VARIABLES file, lst, opts, out, pc
